@@ -176,6 +176,19 @@ pub fn binary(fi: usize, a: u64, b: u64, l: &mut Local) -> Result<(), Viol> {
                 if got == 0x8000_0000 || got == 0 || gneg != (r < 0.0) {
                     return Err(Viol::wrong_s(format!("{}.sign", op()), &[a, b], format!("a real non-zero value with the sign of {:e}", r), hex(got)));
                 }
+            } else if x > 0.0 {
+                // the true value over- or underflows (or the exponent is astronomically large): x^y is still a
+                // positive real for x > 0, so the answer must at least be a non-negative real — never NaR,
+                // never negative (magnitude and the crate's flush-to-zero are not judged out here)
+                l.eval();
+                l.label("powf_positive_base_far_outside(non-negative real only)");
+                let got = match guard(|| (f.call)(pa, pb).to_bits() as u64) {
+                    Ok(g) => g,
+                    Err(m) => return Err(Viol::panic(op(), &[a, b], "a non-negative real (positive base)".into(), m)),
+                };
+                if got & 0x8000_0000 != 0 {
+                    return Err(Viol::wrong_s(format!("{}.sign", op()), &[a, b], "a non-negative real (x > 0, so x^y > 0)".into(), hex(got)));
+                }
             }
         }
         return Ok(());
@@ -237,7 +250,7 @@ fn pair_inputs() -> BoxedStrategy<(u64, u64)> {
 
 pub fn run(rep: &mut Report) {
     let tier = rep.cfg.tier;
-    rep.rule = "P32E2 inputs of sin, cos, tan (|x| < 393216), asin, acos (|x| <= 1), atan, cbrt (all reals), ln, log2 (x > 0), exp (|x| <= 104), exp2 (-150 <= x < 128), sinh, cosh (|x| <= 88) and pairs for atan2 (not (0,0)), hypot, powf (x, y in [0.5, 5), the range for which the crate states its bound); violation iff the minimum encoding distance between the crate's answer and the posit roundings of the widened libm interval exceeds the stated bound (1: exp, exp2; 2: sin, cos, acos, ln, cosh; 3: tan, asin, atan, atan2, log2; 4: cbrt, hypot, sinh; 5: powf), or NaR is returned for a real in-domain argument, or NaR input / argument outside the real domain (ln/log2 x <= 0, asin/acos |x| > 1) does not give NaR, or a panic. Inputs: strided scan of all 2^32 patterns per unary function (offset = seed mod stride), proptest boundary inputs (neighbours of multiples of pi/2, powers of two, range ends), proptest pairs. The per-function ulp-error histogram is in the section labels. Non-trivial = in-domain real argument; distinct (function, input)."
+    rep.rule = "P32E2 inputs of sin, cos, tan (|x| < 393216), asin, acos (|x| <= 1), atan, cbrt (all reals), ln, log2 (x > 0), exp (|x| <= 104), exp2 (-150 <= x < 128), sinh, cosh (|x| <= 88) and pairs for atan2 (not (0,0)), hypot, powf (x, y in [0.5, 5), the range for which the crate states its bound); violation iff the minimum encoding distance between the crate's answer and the posit roundings of the widened libm interval exceeds the stated bound (1: exp, exp2; 2: sin, cos, acos, ln, cosh; 3: tan, asin, atan, atan2, log2; 4: cbrt, hypot, sinh; 5: powf), or NaR is returned for a real in-domain argument, or NaR input / argument outside the real domain (ln/log2 x <= 0, asin/acos |x| > 1) does not give NaR, or a panic. Inputs: strided scan of all 2^32 patterns per unary function (offset = seed mod stride), proptest boundary inputs (neighbours of multiples of pi/2, powers of two, range ends), the posits next to every exp-type reduction boundary (k + 1/2) ln 2, proptest pairs, and powf pairs whose y ln x sits on such a boundary. The per-function ulp-error histogram is in the section labels. Non-trivial = in-domain real argument; distinct (function, input)."
         .into();
     rep.assumptions = vec![
         "glibc libm results for these functions are within 4 epsilon relative of the true value (documented <= 2 ulp); a defect smaller than that slack is invisible".into(),
@@ -267,6 +280,35 @@ pub fn run(rep: &mut Report) {
         let yv = match kind { 0 => (m >> 1) as f64, 1 => (m | 1) as f64, 2 => ((m >> 12) | 1) as f64, _ => m as f64 / 2.0 };
         let yb = enc(if neg { -yv } else { yv }) as u64 & 0xffff_ffff;
         binary(2, base, yb, l)
+    });
+    // exp-type argument reduction: q = round(d / ln 2) switches at d = (k + 1/2) ln 2.  Unary: the posits
+    // nearest to every such boundary inside the range, offsets -3..=3 (exp, sinh, cosh in d; exp2 at k + 1/2).
+    for (fi, scale) in [(8usize, std::f64::consts::LN_2), (9, 1.0), (10, std::f64::consts::LN_2), (11, std::f64::consts::LN_2)] {
+        rep.lattice(&format!("{}: posits nearest to the reduction boundaries (k + 1/2){} for |k| <= 160, offsets -3..=3", UNARY[fi].name, if scale == 1.0 { "" } else { " ln 2" }), 321 * 7, move |i, l| {
+            let (k, j) = ((i / 7) as i64 - 160, (i % 7) as i64 - 3);
+            let b = (enc((k as f64 + 0.5) * scale) + j) as u64 & 0xffff_ffff;
+            unary(fi, b, l)
+        });
+    }
+    // powf(x, y) = exp(y ln x): pairs inside the judged domain whose y ln x sits on such a boundary
+    // (x^y = 2^(k+1/2)), y swept +-4 encodings.  Seeded C15-r3-m2 (q computed two ways in the pow-only exp
+    // kernel) is off by a factor of two on three values of y ln x only: 0 failures in 10^9 random pairs.
+    rep.generated("powf: pairs in [0.5,5)^2 with y ln x on a reduction boundary (k + 1/2) ln 2, k = -6..=11, y offsets -4..=4", tier.pick(400_000, 6_000_000), || (0u64..(1 << 40), -6i32..=11, -4i64..=4), |&(u, k, off), l| {
+        let t = (k as f64 + 0.5) * std::f64::consts::LN_2;
+        let y0 = 0.5 + 4.5 * (u as f64 / (1u64 << 40) as f64);
+        let xb = enc((t / y0).exp()) as u64 & 0xffff_ffff;
+        let xv = val(xb).unwrap_or(1.0);
+        if !(0.5..5.0).contains(&xv) || (xv - 1.0).abs() < 1e-6 {
+            l.label("boundary_pair_outside_domain_skipped");
+            return Ok(());
+        }
+        let y = t / xv.ln();
+        if !(0.5..5.0).contains(&y) {
+            l.label("boundary_pair_outside_domain_skipped");
+            return Ok(());
+        }
+        l.label("boundary_pair_in_domain");
+        binary(2, xb, (enc(y) + off) as u64 & 0xffff_ffff, l)
     });
     for fi in 0..BINARY.len() {
         rep.generated(&format!("{}: generated pairs", BINARY[fi].name), tier.pick(3_000_000, 40_000_000), pair_inputs, move |&(a, b), l| binary(fi, a, b, l));
